@@ -80,6 +80,11 @@ impl Monitor for M {
         );
         v.push(Phase::new("compress_random", tier.pick(20_000, 2_000_000)).batch(64));
         v.push(
+            Phase::new("pl_tables", PL_TABLE_CASES)
+                .batch(2)
+                .exhaustive("property lists with N distinct non-zero heights / depths (N in 1,14..=18,40), italic corrections (N in 1,62..=66,120) and widths (N in 254,255,256), converted by pl_to_tfm and read back: table sizes within the TFM limits (16/16/64/256 entries) and every character's value = the class representative of compress(values, 15/15/63/255)"),
+        );
+        v.push(
             Phase::new("nextlarger_enum", NL_ENUM_TOTAL)
                 .batch(1024)
                 .exhaustive("all functional graphs on 1..=6 labelled characters (labels 0,7,100,128,200,255)"),
@@ -113,6 +118,8 @@ impl Monitor for M {
             ("nextlarger:chains_checked", tier.pick(1_000_000, 10_000_000)),
             ("nextlarger:edges_to_nonexistent", tier.pick(1_000, 50_000)),
             ("nextlarger:star_in_degree_256", 5),
+            ("pl_tables:fonts_that_needed_compression", 10),
+            ("pl_tables:characters_checked", 1400),
         ]
     }
 
@@ -154,6 +161,7 @@ impl Monitor for M {
             "scaled_random" => scaled_random_case(rng, obs),
             "compress_small" => compress_small_case(idx, obs),
             "compress_random" => compress_random_case(rng, obs),
+            "pl_tables" => pl_tables_case(idx, obs),
             "nextlarger_enum" => nextlarger_enum_case(idx, obs),
             "nextlarger_star" => nextlarger_star_case(idx, obs),
             "nextlarger_random" => nextlarger_random_case(rng, obs),
@@ -906,6 +914,99 @@ fn compress_random_case(rng: &mut Rng, obs: &mut Obs) {
                               "tolerance": f.tolerance, "tolerance_as_fix_word": fa::print_fix_word(f.tolerance as i32), "classes": f.classes}));
         }
     }
+}
+
+// ------------------------------------------------------------------------------------------
+// pl_tables: the compression as PLtoTF wires it up (limits 255 / 15 / 15 / 63 + the reserved zero entry)
+// ------------------------------------------------------------------------------------------
+
+const PL_TABLE_NS: [[usize; 7]; 4] = [[1, 14, 15, 16, 17, 18, 40], [1, 14, 15, 16, 17, 18, 40], [1, 62, 63, 64, 65, 66, 120], [254, 255, 256, 0, 0, 0, 0]];
+const PL_TABLE_CASES: u64 = 7 + 7 + 7 + 3;
+
+fn pl_tables_case(idx: u64, obs: &mut Obs) {
+    let (kind, n) = match idx {
+        0..=6 => (0usize, PL_TABLE_NS[0][idx as usize]),
+        7..=13 => (1, PL_TABLE_NS[1][idx as usize - 7]),
+        14..=20 => (2, PL_TABLE_NS[2][idx as usize - 14]),
+        _ => (3, PL_TABLE_NS[3][idx as usize - 21]),
+    };
+    let (name, limit, entries_max) = [("CHARHT", 15u8, 16usize), ("CHARDP", 15, 16), ("CHARIC", 63, 64), ("CHARWD", 255, 256)][kind];
+    // distinct non-zero values k/64 with uneven gaps (so that classes are not all alike), all below 16.0
+    let values: Vec<i32> = (0..n).map(|i| ((i + 1) * 3 + (i * i) % 3) as i32 * (1 << 14)).collect();
+    let mut text = String::from("(DESIGNSIZE R 10.0)\n");
+    for (i, v) in values.iter().enumerate() {
+        let real = format!("{:.6}", *v as f64 / (1u64 << 20) as f64);
+        if kind == 3 {
+            text.push_str(&format!("(CHARACTER O {i:o} (CHARWD R {real}))\n"));
+        } else {
+            text.push_str(&format!("(CHARACTER O {i:o} (CHARWD R 1.0) ({name} R {real}))\n"));
+        }
+    }
+    let witness = |extra: Value| json!({"table": name, "distinct_values": n, "limit": limit, "extra": extra});
+    let (bytes, warnings) = match catch(|| tfm::algorithms::pl_to_tfm(&text)) {
+        Ok(x) => x,
+        Err(p) => {
+            obs.repo_panic(&p, witness(json!({"what": "pl_to_tfm"})));
+            return;
+        }
+    };
+    if !warnings.is_empty() {
+        obs.inconclusive(format!("pl_tables: generated property list has warnings ({} of them)", warnings.len()));
+        return;
+    }
+    let file = match catch(|| tfm::File::deserialize(&bytes)) {
+        Ok((Ok(f), _)) => f,
+        Ok((Err(e), _)) => {
+            obs.violation("pl_tables:output-rejected-by-reader", witness(json!({"error": format!("{e:?}")})));
+            return;
+        }
+        Err(p) => {
+            obs.repo_panic(&p, witness(json!({"what": "deserialize"})));
+            return;
+        }
+    };
+    obs.count("pl_tables:fonts");
+    let table: &Vec<FixWord> = [&file.heights, &file.depths, &file.italic_corrections, &file.widths][kind];
+    if table.len() > entries_max {
+        obs.violation("pl_tables:table-larger-than-the-format-allows", witness(json!({"entries": table.len(), "max": entries_max})));
+        return;
+    }
+    // what compress says for the limit PLtoTF uses (compress itself is the subject of the other phases)
+    let input: Vec<FixWord> = values.iter().map(|v| FixWord(*v)).collect();
+    let (reps, map) = match catch(|| tfm::compress(&input, limit)) {
+        Ok(x) => x,
+        Err(p) => {
+            obs.repo_panic(&p, witness(json!({"what": "compress"})));
+            return;
+        }
+    };
+    if n > limit as usize {
+        obs.count("pl_tables:fonts_that_needed_compression");
+    }
+    for (i, v) in values.iter().enumerate() {
+        let Some(d) = file.char_dimens.get(&Char(i as u8)) else {
+            obs.violation("pl_tables:character-lost", witness(json!({"char": i})));
+            return;
+        };
+        let index = match kind {
+            0 => d.height_index as usize,
+            1 => d.depth_index as usize,
+            2 => d.italic_index as usize,
+            _ => d.width_index.get() as usize,
+        };
+        let back = table.get(index).copied();
+        let want = map.get(&FixWord(*v)).and_then(|k| reps.get(k.get() as usize)).copied();
+        if back != want || back.is_none() {
+            obs.violation(
+                "pl_tables:character-value-is-not-its-class-representative",
+                witness(json!({"char": i, "specified": v, "read_back": back.map(|f| f.0), "index": index,
+                               "class_representative_under_the_limit": want.map(|f| f.0), "table_entries": table.len()})),
+            );
+            return;
+        }
+        obs.count("pl_tables:characters_checked");
+    }
+    obs.nontrivial_by_construction(1);
 }
 
 // ------------------------------------------------------------------------------------------
